@@ -3,6 +3,7 @@
 # build, never -vos), extracted OCaml model drivers, instrumented library + harnesses.
 cd "$(dirname "$0")"
 mkdir -p build ocaml/gen coq/Gen
+python3 tools/pregen.py || echo 'pregen failed'
 ( cd coq && coq_makefile -f _CoqProject -o Makefile >/dev/null && timeout 10800 make -k -j16 ) > build/setup_coq.log 2>&1
 echo "coq build exit: $? (log: build/setup_coq.log; -k: files of properties still under construction may fail without affecting the others)"
 python3 - <<'PY'
@@ -19,14 +20,15 @@ lib, log = core.build_lib('asan')
 if lib is None:
     print(log[-3000:]); sys.exit(1)
 bad = 0
+# harnesses are compiled by the checks themselves (each run.py knows its own flags); here only
+# the extracted model drivers, which need the Coq build
 for d in sorted(os.listdir('props')):
-    for kind, fn, build in (('model', 'driver.ml', core.build_model), ('harness', 'harness.c', core.build_harness)):
-        if os.path.exists(os.path.join('props', d, fn)) and os.path.exists(os.path.join('coq', 'Extract', 'Extract%s.v' % d) if kind == 'model' else os.path.join('props', d, fn)):
-            exe, log = build(d)
-            if exe is None:
-                print("%s: %s build failed%s" % (d, kind, "" if d in claimed else " (property not claimed yet; ignored)"))
-                if d in claimed:
-                    print(log[-2000:]); bad = 1
+    if os.path.exists(os.path.join('props', d, 'driver.ml')) and os.path.exists(os.path.join('coq', 'Extract', 'Extract%s.v' % d)):
+        exe, log = core.build_model(d)
+        if exe is None:
+            print("%s: model build failed%s" % (d, "" if d in claimed else " (property not claimed yet; ignored)"))
+            if d in claimed:
+                print(log[-2000:]); bad = 1
 print("setup ok" if not bad else "setup FAILED")
 sys.exit(bad)
 PY
